@@ -553,9 +553,12 @@ def decrypt_metadata(encrypted_metadata: bytes, private_key: RSA.RsaKey) -> Beac
     """
     cipher = PKCS1_v1_5.new(private_key)
     pt = cipher.decrypt(encrypted_metadata, None)
-    if pt is None:
+    if not pt:
         raise ValueError("Failed to RSA decrypt metadata")
-    metadata = BeaconMetadata(pt)
+    try:
+        metadata = BeaconMetadata(pt)
+    except EOFError:
+        raise ValueError("Failed to parse decrypted metadata, not enough data")
     if metadata.magic != 0xBEEF:
         raise ValueError(f"Invalid metadata magic, got {metadata.magic:08x}, expected 0xbeef")
     return metadata
